@@ -484,8 +484,8 @@ def calleeObj (W : World) : Tree → Option Nat
     else none
   | _ => none
 
-/-- code.Matches (after the fixes): call sites from the index are used only if every root
-symbol has a package path and resolves to nothing or to a function -/
+/-- code.rootCallees: call sites from the index are used only if there are root symbols and
+every one of them has a package path and resolves to nothing or to a function -/
 def useIndex (W : World) (rs : List IndexSymbol) : Bool :=
   !rs.isEmpty && rs.all (fun s => s.path ≠ "" && (match W.lookup s with
     | none => true
